@@ -267,8 +267,10 @@ func (r *run) checkEntry(i, a int) {
 			r.viol("C13", "%s entered (attempt %d) while its dependency %s has not finished successfully (state %s)", id, a, taskID(d), stateName(r.state[d]))
 		case sFailed:
 			r.viol("C14", "%s entered although its dependency %s failed", id, taskID(d))
+			r.viol("C13", "%s entered although its dependency %s did not return nil (its final attempt returned an error)", id, taskID(d))
 		case sSkipper:
 			r.viol("C14", "%s entered although its dependency %s returned ErrorSkipParents", id, taskID(d))
+			r.viol("C13", "%s entered although its dependency %s did not return nil (it returned ErrorSkipParents)", id, taskID(d))
 		}
 	}
 	if r.skippedK[i] {
